@@ -81,6 +81,8 @@ pub struct PathInfo {
     pub fake_blockdev: bool,
     pub writes: u64,
     pub reads: u64,
+    /// open calls on this path so far
+    pub opens: u64,
 }
 
 pub struct SysState {
@@ -288,6 +290,7 @@ fn find_fault(st: &mut SysState, path: usize, op: Op, index: u64) -> Option<Faul
             let kind: &'static str = match &a {
                 FaultAction::Errno(_) if op == Op::Read => "fault:ReadErrno",
                 FaultAction::Errno(_) if op == Op::Unlink => "fault:UnlinkErrno",
+                FaultAction::Errno(_) if op == Op::Open => "fault:OpenErrno",
                 FaultAction::Errno(_) => "fault:WriteErrno",
                 FaultAction::Short(_) => "fault:ShortWrite",
                 FaultAction::PartialThenErrno(..) => "fault:PartialWriteThenErrno",
@@ -447,6 +450,10 @@ unsafe fn do_open(dirfd: c_int, path: *const c_char, flags: c_int, mode: mode_t)
     };
     let p = CStr::from_ptr(path).to_string_lossy().to_string();
     let mut id = st.path_id(&p);
+    // an unnamed temporary file (tempfile::tempfile()): what is opened is not the directory
+    if flags & libc::O_TMPFILE == libc::O_TMPFILE {
+        id = st.path_id("<anon-temp>");
+    }
     // a symbolic link inside the sandbox (e.g. /dev/disk/by-* style names for a device): the
     // properties of the file it points to apply, unless the open itself does not follow links
     if st.paths[id].in_sandbox && flags & libc::O_NOFOLLOW == 0 {
@@ -458,6 +465,14 @@ unsafe fn do_open(dirfd: c_int, path: *const c_char, flags: c_int, mode: mode_t)
         set_errno(libc::EIO);
         return -1;
     }
+    // a transient failure of this open (ETIMEDOUT / ESTALE on a network file system, EINTR)
+    if let Some(FaultAction::Errno(e)) = find_fault(st, id, Op::Open, st.paths[id].opens) {
+        st.paths[id].opens += 1;
+        push_event(st, SysEvent { op: Op::Open, path: id, fd: -1, a: flags as i64, b: mode as i64, ret: -1, errno: e, data: None });
+        set_errno(e);
+        return -1;
+    }
+    st.paths[id].opens += 1;
     let mut eff_flags = flags;
     if st.paths[id].fake_blockdev {
         // a block device node always exists and is never truncated by O_TRUNC
@@ -551,10 +566,30 @@ pub unsafe extern "C" fn write(fd: c_int, buf: *const c_void, count: size_t) -> 
         // panic messages etc.: swallowed while a run is active
         return count as ssize_t;
     }
-    let Some(&id) = st.fds.get(&fd) else {
-        return raw_write(fd, buf, count);
+    let id = match st.fds.get(&fd) {
+        Some(&id) => id,
+        None => {
+            // a descriptor the seam did not see being opened: the tempfile crate opens its
+            // anonymous file (O_TMPFILE, or create + unlink) with raw system calls. A regular
+            // file without a name is adopted under the name "<anon-temp>", so that its writes
+            // are logged and can be made to fail like those of any other file
+            if fd <= 2 || !is_unnamed_regular_file(fd) {
+                return raw_write(fd, buf, count);
+            }
+            let id = st.path_id("<anon-temp>");
+            st.fds.insert(fd, id);
+            id
+        }
     };
     do_write(st, id, fd, buf, count)
+}
+
+unsafe fn is_unnamed_regular_file(fd: c_int) -> bool {
+    let e = get_errno();
+    let mut sb: libc::stat = std::mem::zeroed();
+    let r = libc::syscall(libc::SYS_fstat, fd as c_long, &mut sb as *mut libc::stat);
+    set_errno(e);
+    r == 0 && (sb.st_mode & libc::S_IFMT) == libc::S_IFREG && sb.st_nlink == 0
 }
 
 unsafe fn do_write(st: &mut SysState, id: usize, fd: c_int, buf: *const c_void, count: size_t) -> ssize_t {
